@@ -21,7 +21,7 @@ Definition dyn_target (m : string) : option string :=
 (* one path through a method: every If / Loop / dynamic call consumes one decision
    (If: then/else; Loop: once/not at all; dynamic call: dispatches to the live object / to an
    object without events).  Calls of tabled methods are inlined. *)
-Fixpoint expand (fuel : nat) (ds : list bool) (es : list ev) {struct fuel} : list ev * list bool :=
+Fixpoint expand_g (dyn_target : string -> option string) (fuel : nat) (ds : list bool) (es : list ev) {struct fuel} : list ev * list bool :=
   match fuel with
   | O => ([Call "OUT-OF-FUEL"], ds)
   | S f =>
@@ -34,28 +34,30 @@ Fixpoint expand (fuel : nat) (ds : list bool) (es : list ev) {struct fuel} : lis
                 match dyn_target m with
                 | Some tgt =>
                     match ds with
-                    | true :: ds' => match lookup tgt lock_table with Some b => expand f ds' b | None => ([Call "MISSING"], ds') end
+                    | true :: ds' => match lookup tgt lock_table with Some b => expand_g dyn_target f ds' b | None => ([Call "MISSING"], ds') end
                     | false :: ds' => ([], ds')
                     | [] => ([Call "NO-DECISION"], [])
                     end
-                | None => match lookup m lock_table with Some b => expand f ds b | None => ([], ds) end
+                | None => match lookup m lock_table with Some b => expand_g dyn_target f ds b | None => ([], ds) end
                 end
             | If _ th el =>
                 match ds with
-                | d :: ds' => expand f ds' (if d then th else el)
+                | d :: ds' => expand_g dyn_target f ds' (if d then th else el)
                 | [] => ([Call "NO-DECISION"], [])
                 end
             | Loop _ b =>
                 match ds with
-                | true :: ds' => expand f ds' b
+                | true :: ds' => expand_g dyn_target f ds' b
                 | false :: ds' => ([], ds')
                 | [] => ([Call "NO-DECISION"], [])
                 end
             | x => ([x], ds)
             end in
-          let '(b, ds2) := expand f ds1 r in (a ++ b, ds2)
+          let '(b, ds2) := expand_g dyn_target f ds1 r in (a ++ b, ds2)
       end
   end.
+
+Definition expand := expand_g dyn_target.
 
 (* ---- normal form in which code paths and model paths are compared.  What matters for the
    interleaving semantics is the synchronisation skeleton (Acq/Rel/Write), every shared WRITE, and
@@ -245,7 +247,8 @@ Definition guarded (entry : string * list ev) : bool :=
    it is outside the model (C12 models Progress' accounting) -- see progress_hook_unlocked *)
 Definition in_scope (entry : string * list ev) : bool :=
   negb (existsb (String.eqb (fst entry))
-          ["Progress.refresh"; "Progress.process_renderables"; "ProgressRefreshThread.run"; "LiveRender.__rich_console__"]).
+          ["Progress.start"; "Progress.stop"; "Progress.refresh"; "Progress.process_renderables";
+           "ProgressRefreshThread.run"; "LiveRender.__rich_console__"]).
 
 Example well_locked : forallb guarded (filter in_scope lock_table) = true.
 Proof. vm_compute. reflexivity. Qed.
@@ -284,3 +287,39 @@ Proof. vm_compute. reflexivity. Qed.
 Example progress_hook_unlocked :
   lookup "Progress.process_renderables" lock_table = Some [Call "LiveRender.position_cursor"].
 Proof. reflexivity. Qed.
+
+(* ---- Progress (DESIGN D17, same class, wider): its hook takes NO lock in process_renderables and
+   its LiveRender reads and writes _shape without one; only Progress.refresh holds Progress._lock
+   across render + write.  The path of a user print under a Progress hook: *)
+Definition dyn_progress (m : string) : option string :=
+  if String.eqb m "RenderHook.process_renderables" then Some "Progress.process_renderables"
+  else if String.eqb m "Console.render" then Some "LiveRender.__rich_console__"
+  else None.
+Definition path_progress (m : string) (ds : list bool) : option (list ev) :=
+  match lookup m lock_table with
+  | Some b => let '(p, rest) := expand_g dyn_progress 40 ds b in
+              if is_nil rest then Some (nf [] (filter vis_ev p)) else None
+  | None => None
+  end.
+Definition hook_lock (e : ev) : bool :=
+  match e with
+  | Acq l | Rel l => String.eqb l "Progress._lock" || String.eqb l "Live._lock"
+  | _ => false
+  end.
+(* hooks loop once -> Progress.process_renderables (position_cursor, shape set); render loop once ->
+   LiveRender.__rich_console__ (shape already set); crop loop skipped; outermost exit.
+   No hook lock anywhere; _shape is read for the erase sequence, later read and written by the
+   render, and the file write comes last -- every one of these accesses is unguarded (nf keeps them). *)
+Example progress_print_path_unlocked :
+  match path_progress "Console.print" [true; true; true; true; true; false; false; true] with
+  | Some p => forallb (fun e => negb (hook_lock e)) p
+              && existsb (fun e => match e with Wr f => String.eqb f "LiveRender._shape" | _ => false end) p
+              && (2 <=? length (filter (fun e => match e with Rd f => String.eqb f "LiveRender._shape" | _ => false end) p))%nat
+  | None => false
+  end = true.
+Proof. vm_compute. reflexivity. Qed.
+(* sanity: Progress.stop on a display that is not started does nothing but take its lock *)
+Example progress_stop_not_started :
+  path_progress "Progress.stop" [true; true]
+  = Some [Acq "Progress._lock"; Rel "Progress._lock"].
+Proof. vm_compute. reflexivity. Qed.
